@@ -6,7 +6,8 @@ load per resource", recomputed from the op history (`latest`, `buildList`, the p
 Ops (`<mod>` ∈ flow|iso|hot|cb|sys|out; a rule is `-` (nil) or comma-separated fields, `_` = empty string; the flow / breaker `Threshold` is the exact integer number of 2^-60 units, other floats are halves):
 ```
 load <mod> <n> <rule>*n            => changed|unchanged|err|changed-err
-loadres <mod> <res> <n> <rule>*n   => (same)          (out: n ≤ 1, n = 0 is the nil rule)
+loadres <mod> <res> <n> <rule>*n   => (same)          (`loadresx`: the same call, the harness reuses one slice per resource)
+genmode flow|cb ok|fail|panic      the harness' own generator (flow strategy 7 / behaviour 9, breaker strategy 7) builds / errors / panics          (out: n ≤ 1, n = 0 is the nil rule)
 clear <mod>                        => ok|err
 clearres <mod> <res>               => ok|err
 get <mod>                          => [rule,…] sorted
@@ -97,6 +98,10 @@ structure Slot (R : Type) where
   L : String → List (Option R) := fun _ => []     -- spec side
   Lkeys : List String := []
   seen : List R := []                             -- spec side: every rule object handed over in this case
+  custom : R → Bool := fun _ => false             -- rules built by the harness' own generator
+  mode : GenMode := .ok                           -- what that generator currently does
+  failTaint : List String := []                   -- spec side: keys whose latest load dropped a rule because the generator errored
+  unknown : Bool := false                         -- spec side: a panicking load may or may not have reached the generator: no claims until `clear`
 
 section
 variable {R : Type} [DecidableEq R]
@@ -130,26 +135,50 @@ def stale (sl : Slot R) (k : String) : Bool :=
 def unbuilt (sl : Slot R) (k : String) : Bool :=
   sl.M.pubValid && (validList sl.M (sl.L k)).any fun r => !built sl.M k r
 
+/-- could a custom rule of this load be equal to a rule object handed over earlier (and so be kept without calling the generator)? -/
+def Slot.mayReuse (sl : Slot R) (_ks : List String) (rules : List (Option R)) : Bool :=
+  (rules.filterMap id).any fun r => sl.custom r && sl.seen.any fun o => sl.M.sim o r
+
 def wrapGet (sl : Slot R) (ks : List String) (v : String) : String :=
-  if ks.any (unbuilt sl) then "?known:cb-getter-reports-unbuilt:" ++ v
+  if ks.any sl.failTaint.contains then "?known:generator-error-swallowed:" ++ v
+  else if ks.any (unbuilt sl) then "?known:cb-getter-reports-unbuilt:" ++ v
   else if !sl.M.pubValid && ks.any (stale sl) then "?known:stale-equal-rule:" ++ v else v
 
 def okOrErr (o : Outcome) : String := if o == .err || o == .changedErr || o == .panic then "err" else "ok"
 
 /-- the ops shared by the four map-shaped managers; `none` = not one of them -/
-def Slot.handle (sl : Slot R) (spec : Bool) (ts : List String) : Option (Slot R × Option String) :=
+partial def Slot.handle (sl : Slot R) (spec : Bool) (ts : List String) : Option (Slot R × Option String) :=
   let M := sl.M
+  if spec && sl.unknown && ts.head? != some "clear" && ts.head? != some "genmode" then
+    (if ["load", "loadres", "loadresx", "clearres", "get", "getres", "ctrlids", "ctrlhist"].contains (ts.headD "") then some (sl, some "?") else none)
+  else
   match ts with
+  | ["genmode", _, g] => some <|
+    match g with
+    | "ok" => ({ sl with mode := .ok }, none)
+    | "fail" => ({ sl with mode := .fail }, none)
+    | "panic" => ({ sl with mode := .panic }, none)
+    | _ => (sl, some "bad-op")
   | "load" :: _ :: rest => some <|
     match parseList sl.parse rest with
     | none => (sl, some "bad-op")
     | some rules =>
       if spec then
         let c := claimAll sl rules
-        ({ sl with L := latestStep M sl.L (.loadAll rules), Lkeys := ruleKeys M rules, seen := sl.seen ++ rules.filterMap id }, some c)
+        let hitKeys := (ruleKeys M rules).eraseDups.filter fun k => (validList M (proj M k rules)).any fun r => sl.custom r && built M k r
+        if sl.mode == .panic && c != "unchanged" && !hitKeys.isEmpty then
+          if c.startsWith "?" || sl.mayReuse hitKeys rules then ({ sl with unknown := true }, some "?")
+          else (sl, some "changed-err")
+        else
+          let taint := if c == "unchanged" then sl.failTaint else if sl.mode == .fail then hitKeys else []
+          let c := if sl.failTaint.isEmpty && taint.isEmpty then c else "?known:generator-error-swallowed:" ++ (c.replace "?known:" "")
+          ({ sl with L := latestStep M sl.L (.loadAll rules), Lkeys := ruleKeys M rules, seen := sl.seen ++ rules.filterMap id,
+                     failTaint := taint }, some c)
       else
-        let (s', o) := loadAll M sl.st rules
-        ({ sl with st := s', c := cstep M sl.st sl.c (.loadAll rules) }, some o.toString)
+        let (s', o) := loadAllG M sl.custom sl.mode sl.st rules
+        let c' := if o == .changedErr then sl.c else cstep (withGen M sl.custom sl.mode) sl.st sl.c (.loadAll rules)
+        ({ sl with st := s', c := c' }, some o.toString)
+  | "loadresx" :: m :: res :: rest => Slot.handle sl spec ("loadres" :: m :: res :: rest)   -- same call, the harness reuses its slice
   | "loadres" :: _ :: res :: rest => some <|
     match parseList sl.parse rest with
     | none => (sl, some "bad-op")
@@ -157,16 +186,28 @@ def Slot.handle (sl : Slot R) (spec : Bool) (ts : List String) : Option (Slot R 
       let res := str res
       if spec then
         let c := claimRes sl res rules
-        ({ sl with L := latestStep M sl.L (.loadRes res rules), Lkeys := res :: sl.Lkeys, seen := sl.seen ++ rules.filterMap id }, some c)
+        let hit := (validList M rules).any fun r => sl.custom r && built M res r
+        if sl.mode == .panic && c != "unchanged" && c != "err" && hit then
+          if c.startsWith "?" || sl.mayReuse [res] rules then ({ sl with unknown := true }, some "?")
+          else (sl, some "changed-err")
+        else
+          let taint := if res = "" || c == "unchanged" then sl.failTaint
+                       else if sl.mode == .fail && hit then res :: sl.failTaint else sl.failTaint.filter (· ≠ res)
+          let c := if (sl.failTaint.contains res || taint.contains res) && c != "err"
+                   then "?known:generator-error-swallowed:" ++ (c.replace "?known:" "") else c
+          ({ sl with L := latestStep M sl.L (.loadRes res rules), Lkeys := res :: sl.Lkeys, seen := sl.seen ++ rules.filterMap id,
+                     failTaint := taint }, some c)
       else
-        let (s', o) := loadRes M sl.st res rules
-        ({ sl with st := s', c := cstep M sl.st sl.c (.loadRes res rules) }, some o.toString)
+        let (s', o) := loadResG M sl.custom sl.mode sl.st res rules
+        let c' := if o == .changedErr then sl.c else cstep (withGen M sl.custom sl.mode) sl.st sl.c (.loadRes res rules)
+        ({ sl with st := s', c := c' }, some o.toString)
   | ["clear", _] => some <|
-    if spec then ({ sl with L := fun _ => [], Lkeys := [] }, some "ok")
+    if spec then ({ sl with L := fun _ => [], Lkeys := [], failTaint := [], unknown := false }, some "ok")
     else let (s', o) := loadAll M sl.st []; ({ sl with st := s', c := cstep M sl.st sl.c .clearAll }, some (okOrErr o))
   | ["clearres", _, res] => some <|
     let res := str res
-    if spec then ({ sl with L := latestStep M sl.L (.clearRes res) }, some (if res = "" then "err" else "ok"))
+    if spec then ({ sl with L := latestStep M sl.L (.clearRes res), failTaint := sl.failTaint.filter (· ≠ res) },
+                  some (if res = "" then "err" else "ok"))
     else let (s', o) := loadRes M sl.st res []; ({ sl with st := s', c := cstep M sl.st sl.c (.clearRes res) }, some (okOrErr o))
   | ["get", _] => some <|
     if spec then
@@ -177,7 +218,8 @@ def Slot.handle (sl : Slot R) (spec : Bool) (ts : List String) : Option (Slot R 
   | ["ctrlids", _, res] => some <|
     let res := str res
     let ids := if spec then List.range (sl.specEnf res).length else canonIds ((sl.c.ctrl res).map Prod.snd)
-    (sl, some (showList (ids.map toString)))
+    let v := showList (ids.map toString)
+    (sl, some (if spec && sl.failTaint.contains res then "?known:generator-error-swallowed:" ++ v else v))
   | ["ctrlhist", _, res] => some <|
     -- identities that are stable over the whole case (first-shown order): tells a kept controller from a rebuilt one.
     -- Which controllers are kept is C14's property: the spec makes no claim, the line ties model and code.
@@ -201,15 +243,17 @@ def Slot.enfOf (sl : Slot R) (spec : Bool) (res : String) : List R := if spec th
 /-- a probe result, flagged when the resource is inside the region of `stale-equal-rule` (a kept controller may enforce
     the old threshold) -/
 def Slot.wrapProbe (sl : Slot R) (spec : Bool) (res : String) (v : String) : String :=
-  if spec && stale sl res then "?known:stale-equal-rule:" ++ v else v
+  if spec && sl.unknown then "?"
+  else if spec && sl.failTaint.contains res then "?known:generator-error-swallowed:" ++ v
+  else if spec && stale sl res then "?known:stale-equal-rule:" ++ v else v
 
 end
 
 structure St where
-  flow : Slot FlowRule := { M := flowMod totalMem, parse := parseFlow, shw := showFlow }
+  flow : Slot FlowRule := { M := flowMod totalMem, parse := parseFlow, shw := showFlow, custom := flowCustom }
   iso : Slot IsoRule := { M := isoMod, parse := parseIso, shw := showIso }
   hot : Slot HotRule := { M := hotMod, parse := parseHot, shw := showHot }
-  cb : Slot CbRule := { M := cbMod, parse := parseCb, shw := showCb }
+  cb : Slot CbRule := { M := cbMod, parse := parseCb, shw := showCb, custom := cbCustom }
   sys : SysState := SysState.init
   sysL : List (Option SysRule) := []        -- spec side: latest list handed over
   sysSeen : Bool := false                   -- spec side: some load/clear of system happened in this case
